@@ -29,7 +29,21 @@ def dup_program(rnd, depth=2):
     ])
     def cp():
         return json.loads(json.dumps(base))
-    shape = rnd.choice(["siblings", "seq", "nested", "twice", "mixed", "map", "catch_all", "cousins", "generated"])
+    shape = rnd.choice(["siblings", "seq", "nested", "twice", "mixed", "map", "catch_all", "cousins", "generated",
+                        "limited", "limited"])
+    if shape == "limited":
+        # several jobs competing for one scarce resource, with true job-level duplicates (same call made from
+        # beneath different parents, each with the same demand)
+        lim = rnd.choice([["r1"], {"r1": 1}, ["r1", "r2"]])
+        names = ["inc", "neg", "ident"]
+        items = []
+        for _ in range(rnd.randint(3, 5)):
+            nm, xx = rnd.choice(names), rnd.choice([x, x, x + 1])
+            if rnd.random() < 0.5:
+                items.append(["call", nm, [["val", xx]], {}, {"limits": lim}])
+            else:
+                items.append(["call", "wrap_call", [["val", nm], ["val", xx], ["val", lim]], {}, {}])
+        return ["cont", "list", items], shape
     if shape == "siblings":       # same parent, same expression hash
         return ["cont", "list", [cp(), cp(), ["call", "ident", [cp()], {}, {}]]], shape
     if shape == "seq":            # duplicate created after the first has completed
